@@ -447,9 +447,12 @@ def _await_descriptor_upload(tor_protocol, onion, progress, await_all_uploads):
         """
         args = evt.split()
         subtype = args[0]
+        # a directory may be named "$fingerprint~nickname" in one event
+        # and "$fingerprint" in another: the fingerprint identifies it
+        hsdir = args[3].split('~')[0] if len(args) > 3 else None
         if subtype == 'UPLOAD':
             if hostname_matches('{}.onion'.format(args[1])):
-                attempted_uploads.add(args[3])
+                attempted_uploads.add(hsdir)
                 translate_progress(
                     "wait_descriptor",
                     "Upload to {} started".format(args[3])
@@ -463,8 +466,8 @@ def _await_descriptor_upload(tor_protocol, onion, progress, await_all_uploads):
             # XXX FIXME I think tor is sending the onion-address
             # properly with these now, so we can use those
             # (i.e. instead of matching to "attempted_uploads")
-            if args[3] in attempted_uploads:
-                confirmed_uploads.add(args[3])
+            if hsdir in attempted_uploads:
+                confirmed_uploads.add(hsdir)
                 log.msg("Uploaded '{}' to '{}'".format(args[1], args[3]))
                 translate_progress(
                     "wait_descriptor",
@@ -479,7 +482,7 @@ def _await_descriptor_upload(tor_protocol, onion, progress, await_all_uploads):
 
         elif subtype == 'FAILED':
             if hostname_matches('{}.onion'.format(args[1])):
-                failed_uploads.add(args[3])
+                failed_uploads.add(hsdir)
                 translate_progress(
                     "wait_descriptor",
                     "Failed upload to {}".format(args[3])
